@@ -216,6 +216,23 @@ impl Expr {
         }
     }
 
+    /// Whether a store through this expression goes through a member of a module (whichever
+    /// name the module is bound to): importers cannot assign to what a module exports.
+    fn writes_into_module(
+        &self,
+        flags: &TypecheckFlags<impl Deref<Target = ClassType> + Debug>,
+    ) -> bool {
+        match self {
+            Expr::Index { lhs_raw, .. } => lhs_raw.writes_into_module(flags),
+            Expr::DotLookup { lhs, .. } => {
+                lhs.for_type(flags).is_ok_and(|ty| {
+                    matches!(ty.disregard_distractors(true), TypeLayout::Module(..))
+                }) || lhs.writes_into_module(flags)
+            }
+            _ => false,
+        }
+    }
+
     pub(crate) fn validate(
         &self,
         flags: &TypecheckFlags<impl Deref<Target = ClassType> + Debug>,
@@ -246,6 +263,10 @@ impl Expr {
                     // these operators store into their left operand
                     if let Some(name) = lhs.const_root() {
                         bail!("cannot reassign using {op} to {name}, which is const")
+                    }
+
+                    if lhs.writes_into_module(flags) {
+                        bail!("cannot reassign using {op} to a member of a module")
                     }
                 }
 
